@@ -172,33 +172,39 @@ def failAll (real : ErrK) (s : St) : List Nat → St
   | [] => s
   | f :: fs => failAll real (s.emit (.settle f (.closedErr real))) fs
 
+def readFutL (s : St) : List Nat := match s.rfut with | some f => [f] | none => []
+def connFutL (s : St) : List Nat := match s.cfut with | some f => [f] | none => []
+
+/-- the read being failed is forgotten (D23 fix): parameters reset, a `read_into` buffer handed back -/
+def clearRead (s : St) : St :=
+  match s.rfut with
+  | some _ => { s with rfut := none, rbytes := none, rdelim := none, rregex := none, rpartial := false, user := none }
+  | none => s
+
 def signalClosed (s : St) : St :=
-  let (rf, s1) : List Nat × St := match s.rfut with
-    | some f => ([f], { s with rfut := none, rbytes := none, rdelim := none, rregex := none, rpartial := false,
-                               user := none })
-    | none => ([], s)
-  let wf := s1.wfuts.map (·.2)
-  let s2 := { s1 with wfuts := [] }
-  let (cf, s3) : List Nat × St := match s2.cfut with
-    | some f => ([f], { s2 with cfut := none })
-    | none => ([], s2)
-  let s4 := failAll s3.error s3 (rf ++ wf ++ cf)
-  if s4.cb then ({ s4 with cb := false }).emit .cb else s4
+  let futs := readFutL s ++ s.wfuts.map (·.2) ++ connFutL s
+  let s1 := { clearRead s with wfuts := [], cfut := none }
+  let s2 := failAll s1.error s1 futs
+  if s2.cb then ({ s2 with cb := false }).emit .cb else s2
+
+def setError (s : St) (exc : Option ErrK) : St :=
+  match exc with
+  | some k => { s with error := k }
+  | none => s
+
+/-- first half of `close()`: a pending `read_until_close` gets everything, another pending read is completed
+    if the buffered data satisfies it -/
+def completeAtClose (R : Nat → Bytes → Option Nat) (s : St) : St :=
+  if s.ruc then finishRead { s with ruc := false } s.buf.length
+  else if s.rfut.isSome then
+    match findReadPos R s with
+    | some (some p) => readFromBuffer s p
+    | _ => s
+  else s
 
 def close (R : Nat → Bytes → Option Nat) (s : St) (exc : Option ErrK) : St :=
   if s.closed then signalClosed s
-  else
-    let s1 := match exc with
-      | some k => { s with error := k }
-      | none => s
-    let s2 :=
-      if s1.ruc then finishRead { s1 with ruc := false } s1.buf.length
-      else if s1.rfut.isSome then
-        match findReadPos R s1 with
-        | some (some p) => readFromBuffer s1 p
-        | _ => s1
-      else s1
-    signalClosed { s2 with io := none, closed := true }
+  else signalClosed { completeAtClose R (setError s exc) with io := none, closed := true }
 
 /-! ### `_read_to_buffer`, `_read_to_buffer_loop` -/
 
@@ -213,25 +219,27 @@ def isReset : ErrK → Bool
   | .reset => true
   | _ => false
 
+/-- room offered to `read_from_fd` -/
+def cap (s : St) : Nat :=
+  match s.user with
+  | some n => n - s.buf.length
+  | none => s.chunk
+
+/-- `k` bytes of the first transport chunk `c` move into the buffer -/
+def pull (s : St) (c : Bytes) (rest : List Bytes) (k : Nat) : St :=
+  { s with buf := s.buf ++ c.take k, inc := if k = c.length then rest else c.drop k :: rest }
+
 def readToBuffer (R : Nat → Bytes → Option Nat) (s : St) : St × RTB :=
-  let cap := match s.user with
-    | some n => n - s.buf.length
-    | none => s.chunk
   match s.inc with
   | c :: rest =>
-    let k := min c.length cap
-    if k = 0 then (close R s none, .zero)
-    else
-      let s1 := { s with buf := s.buf ++ c.take k, inc := if k = c.length then rest else c.drop k :: rest }
-      if s1.maxBuf < s1.buf.length then (close R s1 none, .raised .bufferFull)
-      else (s1, .got)
+    if min c.length (cap s) = 0 then (close R s none, .zero)
+    else if s.maxBuf < (pull s c rest (min c.length (cap s))).buf.length then
+      (close R (pull s c rest (min c.length (cap s))) none, .raised .bufferFull)
+    else (pull s c rest (min c.length (cap s)), .got)
   | [] =>
     match s.rerr with
-    | some e =>
-      let s1 := close R { s with rerr := none } (some e)
-      if isReset e then (s1, .resetNone) else (s1, .raised .oserr)
-    | none =>
-      if s.eof then (close R s none, .zero) else (s, .zero)
+    | some e => (close R { s with rerr := none } (some e), if isReset e then .resetNone else .raised .oserr)
+    | none => if s.eof then (close R s none, .zero) else (s, .zero)
 
 inductive LoopRes where
   | pos (p : Option Nat)
@@ -243,6 +251,12 @@ def findFinal (R : Nat → Bytes → Option Nat) (s : St) : St × LoopRes :=
   | some p => (s, .pos p)
   | none => (s, .raised .unsat)
 
+/-- `target_bytes is not None and self._read_buffer_size >= target_bytes` -/
+def reached (target : Option Nat) (size : Nat) : Bool :=
+  match target with
+  | some t => decide (t ≤ size)
+  | none => false
+
 def loopGo (R : Nat → Bytes → Option Nat) (target : Option Nat) : Nat → Nat → St → St × LoopRes
   | 0, _, s => findFinal R s
   | fuel + 1, nextFind, s =>
@@ -252,16 +266,12 @@ def loopGo (R : Nat → Bytes → Option Nat) (target : Option Nat) : Nat → Na
       | (s1, .zero) => findFinal R s1
       | (s1, .raised r) => (s1, .raised r)
       | (s1, _) =>
-        let size := s1.buf.length
-        let reached := match target with
-          | some t => decide (t ≤ size)
-          | none => false
-        if reached then findFinal R s1
-        else if nextFind ≤ size then
+        if reached target s1.buf.length then findFinal R s1
+        else if nextFind ≤ s1.buf.length then
           match findReadPos R s1 with
           | none => (s1, .raised .unsat)
           | some (some p) => (s1, .pos (some p))
-          | some none => loopGo R target fuel (size * 2) s1
+          | some none => loopGo R target fuel (s1.buf.length * 2) s1
         else loopGo R target fuel nextFind s1
 
 def incBytes (s : St) : Nat := (s.inc.map List.length).sum
@@ -308,19 +318,27 @@ def handleConnect (R : Nat → Bytes → Option Nat) (s : St) : St :=
       | none => s
     { s1 with connecting := false }
 
+def evConnect (R : Nat → Bytes → Option Nat) (s : St) : St :=
+  if s.connecting then handleConnect R s else s
+
+def evRead (R : Nat → Bytes → Option Nat) (s : St) (r : Bool) : St × Bool :=
+  if r then handleRead R s else (s, false)
+
+/-- the handler re-registers for what the stream now waits for -/
+def evState (s : St) : St :=
+  { s with io := some (s.rfut.isSome || (!s.rfut.isSome && !decide (0 < s.wpend) && s.buf.isEmpty), decide (0 < s.wpend)) }
+
+def evWrite (R : Nat → Bytes → Option Nat) (s : St) (w : Bool) : St :=
+  if s.closed then s
+  else if (if w then handleWrite R s else s).closed then (if w then handleWrite R s else s)
+  else evState (if w then handleWrite R s else s)
+
 def handleEvents (R : Nat → Bytes → Option Nat) (s : St) (r w : Bool) : St :=
-  if s.closed then s else
-  let s1 := if s.connecting then handleConnect R s else s
-  if s1.closed then s1 else
-  let (s2, unsat) := if r then handleRead R s1 else (s1, false)
-  if unsat then close R s2 (some .unsat) else
-  if s2.closed then s2 else
-  let s3 := if w then handleWrite R s2 else s2
-  if s3.closed then s3 else
-  let rd := s3.rfut.isSome
-  let wr := decide (0 < s3.wpend)
-  let rd' := rd || (!rd && !wr && s3.buf.isEmpty)
-  { s3 with io := some (rd', wr) }
+  if s.closed then s
+  else if (evConnect R s).closed then evConnect R s
+  else match evRead R (evConnect R s) r with
+    | (s2, true) => close R s2 (some .unsat)
+    | (s2, false) => evWrite R s2 w
 
 /-- FakeStream._dispatch -/
 def dispatch (R : Nat → Bytes → Option Nat) (s : St) (r w : Bool) : St :=
